@@ -833,3 +833,195 @@ theorem repair_day_ms_garbage (P : Rat) (sg : Bool) (nowYear : Int) (hd : Int) (
   · linarith
 
 end PygacModel.Times
+
+namespace PygacModel.Times
+open PygacModel Np
+
+/-! ### an implausible year anywhere: the whole pass is rebuilt from its first line -/
+
+/-- what is needed of the first line and of the lengths -/
+structure FirstLineOk (nowYear : Int) (r : RawTimes) : Prop where
+  n_pos : 0 < r.nums.length
+  len_y : r.year.length = r.nums.length
+  len_j : r.jday.length = r.nums.length
+  len_m : r.msec.length = r.nums.length
+  year0 : 1978 ≤ r.year.headD 0 ∧ r.year.headD 0 ≤ nowYear
+  jday0 : 1 ≤ r.jday.headD 0 ∧ r.jday.headD 0 ≤ 366
+  msec0 : 1 ≤ r.msec.headD 0
+
+theorem j2_headR_first (nowYear : Int) (r : RawTimes) (h : FirstLineOk nowYear r) :
+    headR (j2Of r) = ((r.jday.headD 0 : Int) : Rat) := by
+  have hn := h.n_pos
+  have hl2 : (j2Of r).length = r.nums.length := by rw [j2Of_length, h.len_j]
+  have hl1 : (j1Of r).length = r.nums.length := by rw [j1Of_length, h.len_j]
+  have hj : 0 < r.jday.length := by rw [h.len_j]; exact hn
+  have hd := headD_eq_getElem r.jday hj
+  have hr := h.jday0
+  rw [headR_eq_getElem _ (by omega), j2_head r (by omega) (by omega), j1_getElem r 0 (by omega) hj, hd]
+  rw [hd] at hr
+  rw [if_neg (by omega)]
+
+theorem m2_headR_first (P : Rat) (sg : Bool) (nowYear : Int) (r : RawTimes) (h : FirstLineOk nowYear r) :
+    (m2Of P sg r).length = r.nums.length ∧ headR (m2Of P sg r) = ((r.msec.headD 0 : Int) : Rat) := by
+  have hn := h.n_pos
+  have hl2 : (j2Of r).length = r.nums.length := by rw [j2Of_length, h.len_j]
+  have hl1 : (j1Of r).length = r.nums.length := by rw [j1Of_length, h.len_j]
+  have hlen : (m2Of P sg r).length = r.nums.length := by
+    unfold m2Of
+    apply msecFix2_length
+    · exact hl1
+    · exact hl2
+    · exact h.len_m
+    · rcases msecFix1_spec P sg r.nums (j2Of r) r.msec h.msec0 with e | e <;> rw [e]
+      · simp [h.len_m]
+      · exact idealOf_length P sg r.nums (j2Of r) _ hl2
+  refine ⟨hlen, ?_⟩
+  rw [headR_eq_getElem _ (by omega)]
+  have hspec : (m2Of P sg r)[0]'(by omega)
+        = (idealOf P sg r.nums (j2Of r) ((r.msec.headD 0 : Int) : Rat))[0]'(by
+            rw [idealOf_length P sg r.nums (j2Of r) _ hl2]; exact hn) ∨
+      ((m2Of P sg r)[0]'(by omega) = ((r.msec[0]'(by rw [h.len_m]; exact hn) : Int) : Rat) ∧
+        ¬ (((((ediffU32 r.msec)[0]'(by simp; rw [h.len_m]; exact hn) : Int) : Rat) < -1000 ∨
+            ((((ediffU32 r.msec)[0]'(by simp; rw [h.len_m]; exact hn) : Int) : Rat) > 1000))
+          ∧ (ediff (j1Of r))[0]'(by simp; omega) ≠ 1)) := by
+    unfold m2Of
+    exact msecFix2_spec P sg r.nums (j1Of r) (j2Of r) r.msec h.msec0 hn hl1 hl2 h.len_m 0 hn (by
+      have : (m2Of P sg r).length = r.nums.length := hlen
+      unfold m2Of at this; omega)
+  rcases hspec with e | ⟨e, _⟩
+  · rw [e, ← headR_eq_getElem _ (by rw [idealOf_length P sg r.nums (j2Of r) _ hl2]; exact hn),
+      idealOf_head P sg r.nums (j2Of r) _ hn hl2]
+  · rw [e, headD_eq_getElem r.msec (by rw [h.len_m]; exact hn)]
+
+/-- stage 1 when a year OTHER than the first line's is implausible: every line is rebuilt from the first
+line and the line numbers -/
+theorem stage1_year_bad (P : Rat) (sg : Bool) (nowYear : Int) (r : RawTimes) (h : FirstLineOk nowYear r)
+    (hbad : ∃ y ∈ r.year, y < 1978 ∨ y > nowYear) :
+    stage1 P sg nowYear r =
+      { year := r.year.map (fun _ => r.year.headD 0),
+        jday := (j2Of r).map (fun _ => truncR (headR (j2Of r))),
+        msec := (linenoRel P sg r.nums).map (fun l => headR (m2Of P sg r) + l) } := by
+  obtain ⟨y, hy, hyb⟩ := hbad
+  have hsome : ∃ k, r.year.findIdx? (fun y => decide (y < 1978 ∨ y > nowYear)) = some k := by
+    cases hf : r.year.findIdx? (fun y => decide (y < 1978 ∨ y > nowYear)) with
+    | some k => exact ⟨k, rfl⟩
+    | none =>
+      rw [List.findIdx?_eq_none_iff] at hf
+      have := hf y hy
+      simp at this
+      omega
+  obtain ⟨k, hk⟩ := hsome
+  have hk0 : k ≠ 0 := by
+    intro h0
+    subst h0
+    obtain ⟨hlt, hp, _⟩ := List.findIdx?_eq_some_iff_getElem.mp hk
+    have hd := headD_eq_getElem r.year hlt
+    have := h.year0
+    rw [hd] at this
+    simp at hp
+    omega
+  unfold stage1 m2Of j2Of j1Of
+  simp only [hk, hk0, ne_eq, not_false_eq_true, if_true]
+
+/-- **An implausible year on any line other than the first**: whatever ALL the other time fields of the
+file contain, `get_times` returns, for every line, the time built from the first line's recorded time and
+the line numbers (to within 1 ms) - provided the first line is plausible and the header time lies within
+6 min - 2 ms of it. -/
+theorem repair_year_out_of_range (P : Rat) (sg : Bool) (nowYear : Int) (hd : Int) (r : RawTimes)
+    (h : FirstLineOk nowYear r) (hbad : ∃ y ∈ r.year, y < 1978 ∨ y > nowYear)
+    (hdec : (sg && decreasing r.nums) = false)
+    (hhead : absR (passOffset P sg r - (hd : Rat)) ≤ 360000 - 2) :
+    (getTimes {} P nowYear sg (some hd) r).length = r.nums.length ∧
+    ∀ i (hi : i < r.nums.length) (h1 : i < (getTimes {} P nowYear sg (some hd) r).length),
+      absR ((((getTimes {} P nowYear sg (some hd) r)[i] : Int) : Rat)
+        - (((lineIdx sg r.nums[i] : Int) : Rat) * P + passOffset P sg r)) < 1 := by
+  have hn := h.n_pos
+  have hl2 : (j2Of r).length = r.nums.length := by rw [j2Of_length, h.len_j]
+  obtain ⟨hlm, hm0⟩ := m2_headR_first P sg nowYear r h
+  have hj0 := j2_headR_first nowYear r h
+  have hst := stage1_year_bad P sg nowYear r h hbad
+  set C := passOffset P sg r with hC
+  set t1 := s1Instants (stage1 P sg nowYear r) with ht1
+  have hlen1 : t1.length = r.nums.length := by
+    rw [ht1, hst]
+    simp [s1Instants, h.len_y, hl2, linenoRel]
+  set tn := tnOf P sg r.nums with htn
+  have htnlen : tn.length = r.nums.length := tnOf_length P sg r.nums
+  have htni : ∀ i (hi : i < tn.length), tn[i] = ((lineIdx sg (r.nums[i]'(by omega)) : Int) : Rat) * P := by
+    intro i hi
+    simp only [htn, tnOf, List.getElem_map]
+  -- every stage-1 time is the first line's time carried along the line numbers
+  have hline : ∀ i (hi : i < r.nums.length), absR (((t1[i]'(by omega) : Int) : Rat) - (tn[i]'(by omega) + C)) < 1 := by
+    intro i hi
+    have e : t1[i]'(by omega) = instant (r.year.headD 0) (r.jday.headD 0) 0
+        + truncR (((r.msec.headD 0 : Int) : Rat) + ((lineIdx sg r.nums[i] - lineIdx sg (r.nums.headD 0) : Int) : Rat) * P) := by
+      simp only [ht1, hst, s1Instants, List.getElem_zipWith, List.getElem_zip, List.getElem_map, linenoRel, hj0, hm0,
+        truncR_intCast]
+    rw [e, htni i (by omega)]
+    set x : Rat := ((r.msec.headD 0 : Int) : Rat) + ((lineIdx sg r.nums[i] - lineIdx sg (r.nums.headD 0) : Int) : Rat) * P with hx
+    have hc := truncR_close x
+    have : ((instant (r.year.headD 0) (r.jday.headD 0) 0 + truncR x : Int) : Rat) - (((lineIdx sg r.nums[i] : Int) : Rat) * P + C)
+        = ((truncR x : Int) : Rat) - x := by
+      rw [hC, hx]
+      unfold passOffset instant msPerDay
+      push_cast
+      ring
+    rw [this]
+    exact hc
+  set offs := offsetsOf t1 tn with hoffs
+  have hofflen : offs.length = r.nums.length := by simp [hoffs, offsetsOf, hlen1, htnlen]
+  have hoff : ∀ o ∈ offs, absR (o - C) < 1 := by
+    intro o ho
+    obtain ⟨i, hi, e⟩ := List.mem_iff_getElem.mp ho
+    rw [← e]
+    simp only [hoffs, offsetsOf, List.getElem_zipWith]
+    have := hline i (by omega)
+    rw [show ((t1[i]'(by omega) : Int) : Rat) - tn[i]'(by omega) - C = ((t1[i]'(by omega) : Int) : Rat) - (tn[i]'(by omega) + C) by ring]
+    exact this
+  rw [absR_le_iff] at hhead
+  set near := nearOf {} hd offs with hnear
+  have hmd : ({} : S2Params).maxDiffHead = 360000 := rfl
+  have hnearall : near = offs := by
+    rw [hnear, nearOf, List.filter_eq_self]
+    intro o ho
+    have := hoff o ho
+    rw [absR_lt_iff] at this
+    rw [hmd, decide_eq_true_eq, absR_le_iff]
+    constructor <;> linarith [this.1, this.2, hhead.1, hhead.2]
+  have hband : near.countP (inBand (C - 1) (C + 1)) = near.length := by
+    rw [hnearall, List.countP_eq_length]
+    intro o ho
+    have := hoff o ho
+    rw [absR_lt_iff] at this
+    simp only [inBand, Bool.and_eq_true, decide_eq_true_eq]
+    constructor <;> linarith [this.1, this.2]
+  have hnl : near.length = r.nums.length := by rw [hnearall, hofflen]
+  have ht0 := t0_in_band near C 1 (by rw [hband]; omega)
+  have hfrac : ({} : S2Params).minFrac ≤ (near.length : Rat) / (r.nums.length : Rat) := by
+    have hnR : (0 : Rat) < (r.nums.length : Rat) := by exact_mod_cast hn
+    have hmf : ({} : S2Params).minFrac = 1 / 100 := rfl
+    rw [hmf, hnl, div_self (ne_of_gt hnR)]
+    norm_num
+  have hs2 : stage2 {} P sg r.nums (some hd) t1 = .times (List.zipWith (repairLine {} (medianD near)) t1 tn) := by
+    unfold stage2
+    simp only [hdec, Bool.false_eq_true, if_false]
+    rw [if_pos hfrac]
+  have hget : getTimes {} P nowYear sg (some hd) r = List.zipWith (repairLine {} (medianD near)) t1 tn := by
+    unfold getTimes
+    simp only [← ht1, hs2]
+  rw [hget]
+  refine ⟨by rw [List.length_zipWith, hlen1, htnlen, Nat.min_self], ?_⟩
+  intro i hi h1
+  rw [List.getElem_zipWith]
+  have hspec := repairLine_spec {} (medianD near) C 1 (t1[i]'(by omega)) (tn[i]'(by omega)) ht0
+  have hmi : ({} : S2Params).maxDiffIdeal = 10000 := rfl
+  rw [hmi] at hspec
+  have hl := hline i hi
+  have hun := hspec.1 (by
+    rw [absR_lt_iff] at hl
+    rw [absR_le_iff]
+    constructor <;> linarith [hl.1, hl.2])
+  rw [hun, ← htni i (by omega)]
+  exact hl
+
+end PygacModel.Times
